@@ -80,6 +80,16 @@ def table_inputs():
     # comments: terminated and unterminated mixed, inside routes that are retried (F20)
     out += ["<!--a<!--b-->c<!--d", "{{a|<!--b}}<!--c-->", "<!--" * 5 + "-->", "[[a|<!--b]]<!--c-->d<!--e", "<!--x--><!--y", "''<!--a''<!--b-->",
             "<b><!--</b><!---->", "<!--<!---->-->", "{{a|<!--}}-->|b}}<!--", "<!--[[a|" * 6, "<b><!--" * 6 + "-->", "{{{a|<!--" * 4 + "}}}"]
+    # bare and bracketed links whose URL runs into the closer of the enclosing construct (or a look-alike of it)
+    wrappers = ["%s", "{{a|%s}}", "{{a|k=%s}}", "{{{a|%s}}}", "{{{%s}}}", "[[a|%s]]", "== %s ==", "{|\n| %s\n|}", "{|\n| %s || z\n|}", "{|\n! %s !! z\n|}",
+                "<b>%s</b>", "\'\'%s\'\'", "\'\'\'%s\'\'\'", "[http://x.y %s]", "* %s\n", "; %s : z\n", "<ref name=a>%s</ref>", "{{a|{{{b|%s}}}}}", "{{{a|{{b|%s}}}}}"]
+    tails = ["}}", "}", "}}}", "]]", "]", "|", "||", "!!", "{{", "{{{", "[[", "\'\'", "\'\'\'", "<", ">", "=", "==", "\n", "&", "&amp;", ":", ";", "<!--", "</b>", "{{c}}", "{{{c}}}"]
+    for w in wrappers:
+        for tl in tails:
+            for url in ("http://b.c/", "mailto:a", "//b.c/"):
+                out.append(w % (url + tl + "d"))
+                if url.startswith("//"):
+                    out[-1] = w % ("[" + url + tl + "d e]")
     for lvl in range(1, 9):
         out += ["=" * lvl + " h " + "=" * lvl, "=" * lvl + "h" + "=" * (lvl + 1) + "\n", "\n" + "=" * lvl + "=\n"]
     return out
